@@ -24,6 +24,7 @@ type c20HealthCase struct {
 	Threshold int    `json:"threshold"`
 	Kind      string `json:"failure_kind"` // non200 | closed
 	Script    string `json:"script"`       // P/F per health request; afterwards F forever
+	Traffic   bool   `json:"traffic"`      // client requests keep arriving (one every 250 ms) for the whole history: being busy is no reason not to check
 }
 
 type c20HealthEvent struct {
@@ -114,6 +115,24 @@ func c20Health(r *core.Run, agentBin string, md *fakes.Metadata, c c20HealthCase
 		return
 	}
 	defer agent.Kill()
+	if c.Traffic {
+		stopTraffic := make(chan struct{})
+		defer close(stopTraffic)
+		go func() {
+			for n := 0; ; n++ {
+				select {
+				case <-stopTraffic:
+					return
+				case <-agent.Done():
+					return
+				case <-time.After(250 * time.Millisecond):
+				}
+				var w rawhttp.Builder
+				w.Line(fmt.Sprintf("GET /work/%d HTTP/1.1", n)).Field("Host", "c20.example").End()
+				px.Enqueue(fmt.Sprintf("%s-work%d", c.Name, n), w.Bytes(), "")
+			}
+		}()
+	}
 	// the history needs len(script)+threshold health checks at 1 s each; T = 10 s on top
 	total := time.Duration(len(c.Script)+c.Threshold+2)*time.Second + 12*time.Second
 	var exitAt time.Time
@@ -127,6 +146,9 @@ func c20Health(r *core.Run, agentBin string, md *fakes.Metadata, c c20HealthCase
 	first := firstProxyReq
 	mu.Unlock()
 	cls := fmt.Sprintf("health|t=%d|%s|lateP=%d|resets=%d", c.Threshold, c.Kind, strings.Index(c.Script, "P"), strings.Count(c.Script, "P")-1)
+	if c.Traffic {
+		cls += "|steady-client-traffic"
+	}
 	r.Case(cls)
 	r.Add("health_replies_served", len(evs))
 	// (1) start-up gate
@@ -395,6 +417,18 @@ func c20Shutdown(r *core.Run, agentBin string, md *fakes.Metadata, c c20ShutCase
 			return false
 		}
 	}
+	if c.Phase == "before-first-poll" {
+		// the agent's start-up calls to the metadata server take 300 ms each: the signal arrives while the polling goroutine
+		// is still preparing its client, i.e. after the handler has been registered and before any list call
+		md2, err := fakes.NewMetadata()
+		if err != nil {
+			r.Broken(err.Error())
+			return
+		}
+		defer md2.Close()
+		atomic.StoreInt64(&md2.DelayNs, int64(300*time.Millisecond))
+		md = md2
+	}
 	var agent *core.Proc
 	if c.SlowStartMs > 0 {
 		full := append([]string{"--proxy=" + px.URL(), "--host=" + backend.Addr(), "--backend=b20-" + c.Name, "--disable-gce-vm-header=true"}, args...)
@@ -421,6 +455,49 @@ func c20Shutdown(r *core.Run, agentBin string, md *fakes.Metadata, c c20ShutCase
 			time.Sleep(2 * time.Millisecond)
 		}
 		return nil
+	}
+	if c.Phase == "before-first-poll" {
+		for d := time.Now().Add(30 * time.Second); time.Now().Before(d) && atomic.LoadInt64(&md.Reqs) == 0 && agent.Alive(); {
+			time.Sleep(2 * time.Millisecond)
+		}
+		mu.Lock()
+		already := len(lists)
+		mu.Unlock()
+		r.Case(fmt.Sprintf("shutdown|%s|grace=%d|%s|-", c.Signal, c.GraceS, c.Phase))
+		if atomic.LoadInt64(&md.Reqs) == 0 || already > 0 {
+			r.Inconclusive(fmt.Sprintf("shutdown scenario %s: the start-up window was missed (metadata requests %d, list calls %d)", c.Name, atomic.LoadInt64(&md.Reqs), already))
+			return
+		}
+		sig := syscall.SIGINT
+		if c.Signal == "TERM" {
+			sig = syscall.SIGTERM
+		}
+		tSig := time.Now()
+		agent.Signal(sig)
+		if _, err := agent.WaitLog(c20BeginRe, 10*time.Second); err != nil {
+			if !agent.Alive() {
+				r.Violate("C20:exited-before-grace-period:"+c.Signal, fmt.Sprintf("scenario %s: the agent exited %v after SIG%s (sent while its polling goroutine was still preparing its client) although a %ds graceful-shutdown period is configured", c.Name, time.Since(tSig).Round(time.Millisecond), c.Signal, c.GraceS), c, nil)
+			} else {
+				r.Violate("C20:signal-ignored:"+c.Signal, fmt.Sprintf("scenario %s: no graceful shutdown began within 10s of SIG%s", c.Name, c.Signal), c, nil)
+			}
+			return
+		}
+		select {
+		case <-agent.Done():
+		case <-time.After(c.grace() + 10*time.Second):
+			r.Violate("C20:no-exit-after-grace-period", fmt.Sprintf("scenario %s: still running %v after SIG%s with a %ds period", c.Name, time.Since(tSig).Round(time.Millisecond), c.Signal, c.GraceS), c, nil)
+		}
+		if d := time.Since(tSig); agent.Alive() == false && d < c.grace()-50*time.Millisecond {
+			r.Violate("C20:exited-before-grace-period:"+c.Signal, fmt.Sprintf("scenario %s: exited %v after SIG%s, before the %v period ended", c.Name, d.Round(time.Millisecond), c.Signal, c.grace()), c, nil)
+		}
+		// the shutdown was announced before any list call had been made: none may start afterwards
+		mu.Lock()
+		n := len(lists)
+		mu.Unlock()
+		if n > 0 {
+			r.Violate("C20:polled-after-shutdown-began:signal-before-first-poll", fmt.Sprintf("scenario %s: SIG%s arrived before the agent's first pending-list call (its polling goroutine was still preparing its client); the shutdown was announced, and then %d pending-list call(s) were started", c.Name, c.Signal, n), c, nil)
+		}
+		return
 	}
 	l1 := waitList(1, 30*time.Second)
 	if l1 == nil {
@@ -663,6 +740,11 @@ func C20(r *core.Run) {
 	add := func(t int, kind, script string) {
 		hcs = append(hcs, c20HealthCase{Name: fmt.Sprintf("h%d", len(hcs)), Threshold: t, Kind: kind, Script: script})
 	}
+	// a backend that fails its checks while client requests keep arriving and being answered
+	hcs = append(hcs, c20HealthCase{Name: "h-traffic", Threshold: 2, Kind: "non200", Script: "PP", Traffic: true})
+	if !r.Quick() {
+		hcs = append(hcs, c20HealthCase{Name: "h-traffic2", Threshold: 3, Kind: "closed", Script: "FPFFP", Traffic: true})
+	}
 	if r.Quick() {
 		add(1, "non200", "FFP")
 		add(2, "closed", "PFPFP")
@@ -733,6 +815,8 @@ func C20(r *core.Run) {
 	// starting its polling loop to its next statement: an agent that polls (and forwards) is an agent that shuts down gracefully
 	scs = append(scs, c20ShutCase{Name: fmt.Sprintf("s%d", len(scs)), Signal: "TERM", GraceS: 2, Phase: "idle", Finish: "inside", FinishS: 1, SlowStartMs: 1500},
 		c20ShutCase{Name: fmt.Sprintf("s%d", len(scs)+1), Signal: "INT", GraceS: 3, Phase: "at-backend", Finish: "inside", FinishS: 1, SlowStartMs: 1500})
+	// the signal arrives after the handler has been registered and before the first list call
+	scs = append(scs, c20ShutCase{Name: fmt.Sprintf("s%d", len(scs)), Signal: "TERM", GraceS: 6, Phase: "before-first-poll", Finish: "inside", FinishS: 1})
 	// other time-outs of the agent are shorter than the period: the period is the period
 	scs = append(scs, c20ShutCase{Name: fmt.Sprintf("s%d", len(scs)), Signal: "TERM", GraceS: 4, Phase: "idle", Finish: "inside", FinishS: 1, ProxyTimeoutS: 2})
 	// a backend that stays busy far beyond the period (longer than the progress bound): the process still exits when the period ends
